@@ -335,7 +335,16 @@ fn cmd_run(a: &Args) -> i32 {
     if let Some(f) = res.found.first() {
         let (min_t, min_v, tests) = shrink::shrink(prop, &known, &f.trace, &f.violation);
         let _ = std::fs::create_dir_all(&replay_dir);
-        let path = format!("{}/{}-{}-{}-{}{}.replay", replay_dir, prop.name(), backend(), seed, if res.lattice_found { "lattice" } else { "" }, f.index);
+        let path = format!(
+            "{}/{}-{}-{}-{}{}{}.replay",
+            replay_dir,
+            prop.name(),
+            backend(),
+            seed,
+            if profile() == "checked" { "checked-" } else { "" },
+            if res.lattice_found { "lattice" } else { "" },
+            f.index
+        );
         let rf = ReplayFile {
             property: prop.name().to_string(),
             class: min_v.class.clone(),
